@@ -9,10 +9,8 @@
    is what the code does (the timeouts are never reset), it is irrelevant for single-use call
    sequences and made explicit by C10_reuse_keeps_timeouts.
 
-   A Start that fails (seed too short) is documented to return an invalid-input error; the
-   documented reading is that such a refused call leaves the instance as it was
-   ([keeps := false]).  The code of plain Feldman VSS and Feldman-VSS-Qual sets `running`
-   before the polynomial is generated ([keeps := true]). *)
+   A Start that fails (seed too short) is documented to return an invalid-input error; such
+   a refused call leaves the instance as it was (not running). *)
 From Coq Require Import ZArith List Bool Arith.
 From V Require Import Model.DkgVss.
 Import ListNotations.
@@ -48,7 +46,6 @@ Section Aut.
 Variable p : proto.
 Variable cf : cfg.
 Variable dealer : bool.    (* does Start generate shares (always for Joint-Feldman) *)
-Variable keeps : bool.     (* a failed Start leaves the instance running *)
 
 (* generateShares fails: seed shorter than KeyGenSeedMinLen, or (probability 1/r) the
    dealer's own share is zero *)
@@ -64,7 +61,7 @@ Definition aut_step (A : astate) (c : call) : astate * rclass :=
   match c with
   | CStart sd =>
       if a_run A then (A, KStateErr)
-      else if dealer && seed_fails sd then ((if keeps then mkA true (a_to A) else A), KInvalidInput)
+      else if dealer && seed_fails sd then (A, KInvalidInput)
       else (mkA true (a_to A), KOk)
   | CNextTimeout =>
       if negb has_timeouts then (A, KOk)
